@@ -173,10 +173,18 @@ let run_wal infile outfile oraclefile =
       let (line, r, r2) = observe si st files in
       Printf.fprintf oc "R %s %s\n" cid line;
       let written = match get_pristine did sihex si with Some (_, w) -> w | None -> [] in
-      Printf.fprintf oo "O %s kind=READ oracle=%s oracle2=%s nrec=%d\n" cid
+      (* ops-level oracle: a read from index 0 of a directory taken at a sync point (nops >= 0)
+         must be exactly what the script specifies (spec_run; theorem C16_spec_read_ok) *)
+      let d = Hashtbl.find dirs did in
+      let spec =
+        if d.nops >= 0 && sihex = "0" && sthex = "0" then begin
+          let w = Hashtbl.find wals d.dwid in
+          if spec_read_ok w.meta (take d.nops (List.rev w.ops)) r then "ok" else "BAD"
+        end else "na" in
+      Printf.fprintf oo "O %s kind=READ oracle=%s oracle2=%s nrec=%d spec=%s\n" cid
         (oracle_of si st written (List.length written) r)
         (match r2 with Some x -> oracle_of si st written 0 x | None -> "na")
-        (List.length written)
+        (List.length written) spec
     | ["K"; cid; did; sihex; sthex; nops] ->
       (* process-kill image taken when the nops-th operation returned: read it like any
          directory; the result must contain every completed save (completed_ok, theorem
@@ -216,6 +224,29 @@ let run_wal infile outfile oraclefile =
          Printf.fprintf oo "O %s kind=M oracle=%s oracle2=%s part=%s rec=%d rtype=%s\n" cid
            (oracle_of si st written 0 r)
            (match r2 with Some x -> oracle_of si st written 0 x | None -> "na") p k rt)
+    | ["T"; cid; did; sihex; sthex; fidx; size; synced] ->
+      (* truncation image: file fidx ends after size bytes (C16_truncated_tail) *)
+      let si = n_of_hexnum sihex and st = n_of_hexnum sthex in
+      let files = get_dir did in
+      let fi = int_of_string fidx and sz = int_of_string size in
+      let sy = n_of_int (int_of_string synced) in
+      let files' = List.mapi (fun i (nm, c) -> if i = fi then (nm, take sz c) else (nm, c)) files in
+      let (line, r, r2) = observe si st files' in
+      Printf.fprintf oc "R %s %s\n" cid line;
+      (match get_pristine did sihex si with
+       | None -> Printf.fprintf oo "O %s kind=T oracle=na oracle2=na kmin=0 shape=ok\n" cid
+       | Some (per, written) ->
+         let nper = List.length per in
+         let before = List.concat (take (nper - 1) per) in
+         let lastrs = last_of per in
+         let kmin = List.length before + int_of_nat (count_synced lastrs N0 sy) in
+         let shape_ok =
+           (match r with RAOk _ -> true | RAErr CUnexpEOF -> true | _ -> false)
+           && (match r2 with None -> true | Some (RAOk _) -> true | Some _ -> false) in
+         Printf.fprintf oo "O %s kind=T oracle=%s oracle2=%s kmin=%d shape=%s\n" cid
+           (oracle_of si st written kmin r)
+           (match r2 with Some x -> oracle_of si st written kmin x | None -> "na")
+           kmin (if shape_ok then "ok" else "BAD"))
     | ["Z"; cid; did; sihex; sthex; synced; sectors] ->
       let si = n_of_hexnum sihex and st = n_of_hexnum sthex in
       let files = get_dir did in
